@@ -539,7 +539,7 @@ class Run:
                 pred = "ok" if r["r"] == "ok" else "diag:loop_budget"
                 reply, fails = self.case("sweep_loop", {"main.asm": prog})
                 self.expect("sweep_loop", {"main.asm": prog}, reply, fails, pred, "`.loop %d`" % v)
-        for (a, b) in [(16, 16), (3, 70000), (2, 32769 * 0 + 5)]:
+        for (a, b) in [(16, 16), (3, 70000), (2, 5)] + ([(257, 256)] if thorough else []):      # the last one exhausts the budget across loops (~10 s)
             prog = ".loop %d { .loop %d { nop } }\n" % (a, b)
             r1 = self.model.call({"cmd": "loop", "used": "0", "count": str(a)})
             r2 = self.model.call({"cmd": "loop", "used": r1.get("v", "0"), "count": str(b)}) if r1["r"] == "ok" else r1
